@@ -198,6 +198,47 @@ pub fn gen_repro(a: &Args, out: &mut Out, run0: u64, npairs: u64) {
     }
 }
 
+/// C31: a machine that has been used and reset behaves as a fresh one: run A starts on a new simulator
+/// (with exact timers attached), run B on one that carried the same timers through some execution and a
+/// `reset()`; header (registers, memory, timer countdowns) and every event must be identical.
+pub fn gen_repro_reset(a: &Args, out: &mut Out, run0: u64, npairs: u64) {
+    use lc3_ensemble::sim::device::TimerDevice;
+    use std::sync::{Arc, RwLock};
+    let mut rng = rng_for(a, 0x9A9A ^ run0);
+    let prog = assemble_src(crate::scen::PROG_ECHO);
+    crate::machine::set_pair_tag("repro");
+    for k in 0..npairs {
+        let init = match k % 3 { 0 => MachineInitStrategy::Known { value: rng.random() }, _ => MachineInitStrategy::Seeded { seed: rng.random_range(0..1_000_000u64) } };
+        let flags = SimFlags { strict: false, use_real_traps: chance(&mut rng, 50), machine_init: init,
+                               debug_frames: chance(&mut rng, 50), ignore_privilege: false };
+        let nt = rng.random_range(0..3usize);
+        let tcfg: Vec<(u64, u32, u8, u8)> = (0..nt).map(|_| (rng.random(), rng.random_range(2..30u32), 0x80 + rng.random_range(0..4u8), rng.random_range(1..8u8))).collect();
+        let before: u32 = rng.random_range(1..40);
+        let nsteps: u32 = rng.random_range(30..90);
+        for used in [false, true] {
+            let (tc, pg) = (tcfg.clone(), prog.clone());
+            let mut m = M::new_from(run0 + 2 * k + used as u64, flags, out, move |sim| {
+                let mut ts = vec![];
+                for &(seed, n, vect, prio) in &tc {
+                    let t = Arc::new(RwLock::new(TimerDevice::new(Some(seed), n..=n, vect, prio)));
+                    let _ = sim.device_handler.add_device(t.clone(), &[]);
+                    ts.push((t, (n, n), vect, prio));
+                }
+                if used {
+                    let _ = sim.load_obj_file(&pg);
+                    for _ in 0..before { let _ = sim.step_in(); }
+                    sim.reset();
+                }
+                ts
+            });
+            m.load(out, &prog);
+            m.keys(out, &[b'h', b'i', 0]);
+            for _ in 0..nsteps { if m.step(out, false, false) != "ok" { break; } }
+            m.end(out);
+        }
+    }
+}
+
 /// C14: run A (strict off) and run B (strict on) driven in lockstep from identical
 /// states by the same script.  With `fullinit` every memory word and register is
 /// initialized first (these runs are only checked relationally).
